@@ -21,6 +21,7 @@ type SubscriptionService struct {
 
 // get rid of all references to a subscription and all monitored items that are pointed at this subscription.
 func (s *SubscriptionService) DeleteSubscription(id uint32) {
+	verifPoint("DeleteSubscription", id)
 	s.Mu.Lock()
 	defer s.Mu.Unlock()
 
@@ -38,6 +39,7 @@ func (s *SubscriptionService) DeleteSubscription(id uint32) {
 
 	// ask the monitored item service to purge out any items that use this subscription
 	s.srv.MonitoredItemService.DeleteSub(id)
+	verifPoint("DeleteSubscription.done", id)
 
 }
 
@@ -493,6 +495,7 @@ func (s *Subscription) run() {
 			Results:                  []ua.StatusCode{},
 			DiagnosticInfos:          []*ua.DiagnosticInfo{},
 		}
+		verifPoint("sub.publish", s.ID, s.SequenceID, final_items)
 		err := s.Channel.SendResponseWithContext(context.Background(), pubreq.ID, response)
 		if err != nil {
 			if s.srv.srv.cfg.logger != nil {
